@@ -46,3 +46,82 @@ Definition kwarg_filter_gen (ratio_cmp : cmp) (num den : nat) (cont : nat -> nat
 
 (* the documented filter: at least 80% (4 of every 5) keyword-argument lines, inside a multi-line call *)
 Definition kwarg_filter_ref := kwarg_filter_gen CGe 4 5 call_contains_ref.
+
+(* ------------------------------------------------------------------ the three text-only filters and the registry
+   ImportGroupFilter:       every line of the range is blank after strip() or is not rejected (starts with `import ` / `from `)
+   LoggerCallFilter:        the non-blank stripped lines are exactly ONE line matching
+                              ^\s*(self\.)?(logger|logging|log)\.(debug|...|log)\s*\(
+   ExceptionReraiseFilter:  the non-blank stripped lines are exactly TWO: `except ...:` and `raise ... from ...`
+   BlockFilterRegistry:     any() over the registered filters that are enabled; dry.filters switches filters of the
+                            Python analyzer on and off (the TypeScript analyzer always uses the default registry).
+   The leaf tests (prefix tables, length tests, the except/raise test) are parameters: Model/Dry.v passes what
+   Gen/DryGen.v reads from block_filter.py, the reference below passes the documented ones. *)
+Definition rstrip (s : string) : string := srev (skip_ws (srev s)).
+Definition py_strip (s : string) : string := rstrip (skip_ws s).
+Definition nonblank (s : string) : bool := negb (str_empty (py_strip s)).
+Definition stripped_nonempty (ls : list string) : list string := filter (fun t => negb (str_empty t)) (map py_strip ls).
+
+Fixpoint sdrop (n : nat) (s : string) : string :=
+  match n with 0 => s | S n' => match s with EmptyString => EmptyString | String _ s' => sdrop n' s' end end.
+
+Definition import_filter_gen (rejected : string -> bool) (raw : list string) (s e : nat) : bool :=
+  forallb (fun l => let t := py_strip l in if str_empty t then true else negb (rejected t)) (slice_lines raw s e).
+
+(* obj "." meth ws* "(" at the start of u *)
+Definition logger_call_at (objs meths : list string) (u : string) : bool :=
+  existsb (fun o => existsb (fun m => let p := (o ++ "." ++ m)%string in
+                                      if str_prefix p u then str_prefix "(" (skip_ws (sdrop (String.length p) u)) else false) meths) objs.
+Definition logger_line_gen (selfp : string) (objs meths : list string) (t : string) : bool :=
+  let t1 := skip_ws t in
+  if logger_call_at objs meths t1 then true
+  else if str_prefix selfp t1 then logger_call_at objs meths (sdrop (String.length selfp) t1) else false.
+
+Definition logger_filter_gen (single : nat -> bool) (line_ok : string -> bool) (raw : list string) (s e : nat) : bool :=
+  let ne := stripped_nonempty (slice_lines raw s e) in
+  match ne with
+  | [] => false
+  | t :: _ => if single (List.length ne) then line_ok t else false
+  end.
+
+Definition reraise_filter_gen (len_bad : nat -> bool) (pat : string -> string -> bool) (raw : list string) (s e : nat) : bool :=
+  let ne := stripped_nonempty (slice_lines raw s e) in
+  if len_bad (List.length ne) then false else pat (nth 0 ne "") (nth 1 ne "").
+
+(* the documented filters *)
+Definition import_shaped (t : string) : bool := str_prefix "import " t || str_prefix "from " t.
+Definition import_filter_ref := import_filter_gen (fun t => negb (import_shaped t)).
+Definition logger_objs_ref : list string := ["logger"; "logging"; "log"].
+Definition logger_meths_ref : list string := ["debug"; "info"; "warning"; "error"; "critical"; "exception"; "log"].
+Definition logger_line_ref := logger_line_gen "self." logger_objs_ref logger_meths_ref.
+Definition logger_filter_ref := logger_filter_gen (fun n => n =? 1) logger_line_ref.
+Definition except_raise_ref (first second : string) : bool :=
+  (str_prefix "except " first && str_ends first ":") && (str_prefix "raise " second && str_contains " from " second).
+Definition reraise_filter_ref := reraise_filter_gen (fun n => negb (n =? 2)) except_raise_ref.
+
+(* registry: a registered filter runs unless dry.filters (custom over the defaults) says false *)
+Fixpoint lookup_flag (name : string) (tbl : list (string * bool)) : option bool :=
+  match tbl with [] => None | (k, b) :: r => if String.eqb k name then Some b else lookup_flag name r end.
+(* {**defaults, **custom}: the LAST entry of custom for a key wins in a dict built from a mapping; the harness sends
+   each key once *)
+Definition filter_on (defaults custom : list (string * bool)) (name : string) : bool :=
+  match lookup_flag name custom with
+  | Some b => b
+  | None => match lookup_flag name defaults with Some b => b | None => true end
+  end.
+
+Definition registry_gen (names : list string) (on : string -> bool)
+           (kw imp lg rr : list string -> nat -> nat -> bool) (raw : list string) (s e : nat) : bool :=
+  existsb (fun name => if on name then
+                         (if String.eqb name "keyword_argument_filter" then kw raw s e
+                          else if String.eqb name "import_group_filter" then imp raw s e
+                          else if String.eqb name "logger_call_filter" then lg raw s e
+                          else if String.eqb name "exception_reraise_filter" then rr raw s e else false)
+                       else false) names.
+
+Definition registry_names_ref : list string :=
+  ["keyword_argument_filter"; "import_group_filter"; "logger_call_filter"; "exception_reraise_filter"].
+Definition filter_defaults_ref : list (string * bool) := [("keyword_argument_filter", true); ("import_group_filter", true)].
+(* configured = true: the Python analyzer (dry.filters applies); false: the TypeScript/JavaScript analyzer *)
+Definition registry_ref (configured : bool) (custom : list (string * bool)) (calls : list (nat * nat)) : list string -> nat -> nat -> bool :=
+  registry_gen registry_names_ref (if configured then filter_on filter_defaults_ref custom else fun _ => true)
+               (fun raw => kwarg_filter_ref raw calls) import_filter_ref logger_filter_ref reraise_filter_ref.
